@@ -67,8 +67,12 @@ def check(ctx):
     COND, COMB, PER = main[0][1], main[0][2], main[0][3]
     # ---- R1 -----------------------------------------------------------------------------------------
     T = ("call", ("global", "min"), (("const", 10), ncal), ())
-    okc = COND[0] == "cmp" and COND[1] == "<" and COND[3] in (T, ("call", ("global", "min"), (ncal, ("const", 10)), ())) and COND[2][0] == "call" \
-        and ir.show(COND[2][1]).endswith("min") and COND[2][2][0][0] == "sub" and COND[2][2][0][2] == ("const", "n")
+    CN = COND
+    if CN[0] == "cmp" and CN[1] == ">":  # `min(10, n) > counts.min()` is the same test
+        CN = ("cmp", "<", CN[3], CN[2])
+    COND = CN
+    okc = CN[0] == "cmp" and CN[1] == "<" and CN[3] in (T, ("call", ("global", "min"), (ncal, ("const", 10)), ())) and CN[2][0] == "call" \
+        and ir.show(CN[2][1]).endswith("min") and CN[2][2][0][0] == "sub" and CN[2][2][0][2] == ("const", "n")
     ctx.ob("C15.R1.trigger", f"{f.qualname}|fallback iff min group count < min(10, n_cal)", okc, f.where(),
            "the fallback is taken when the smallest group has fewer than min(10, all calibration units) calibration units" if okc
            else f"trigger is {ir.show(COND, maxdepth=5)}")
@@ -149,8 +153,9 @@ def check(ctx):
                f"mu_{side}_bound = weighted_median({side}_bounds, baseline / sum(baseline))" if okm else f"mu_{side}_bound = {ir.show(mu, maxdepth=4) if mu else None}")
         sg = d.get(f"sigma_{side}_bound")
         oks = False
-        if sg is not None and sg[0] == "bin" and sg[1] == "*" and sg[2] == ("attr", SELF, "beta") and sg[3][0] == "call" and sg[3][1] == ("global", f"{MU}:boot_sigma"):
-            c = sg[3]
+        cands = [r_ for l_, r_ in (ir.comm(sg, "*") if sg is not None else []) if l_ == ("attr", SELF, "beta") and r_[0] == "call" and r_[1] == ("global", f"{MU}:boot_sigma")]
+        if cands:
+            c = cands[0]
             conf_q = _kw(c, "conf")
             oks = (c[2][0] == vals and conf_q is not None and symexpr.Normalizer(leaf=lambda x: x[1] if x[0] == "param" else None).norm(conf_q) == q34
                    and _kw(c, "winsorize") == ("attr", SELF, "winsorize"))
@@ -247,11 +252,23 @@ def check(ctx):
         ap = bt[1][1]
         if ap[0] == "call" and ap[1][0] == "attr" and ap[1][2] == "apply" and ap[2] and ap[2][0][0] == "lambda":
             body2 = mb.lambda_apply(ap[2][0], [("param", "g")])
-            dd = dict((a[1], ir.show(v, maxdepth=6)) for a, v in body2[2][0][1]) if body2[0] == "call" and body2[2] and body2[2][0][0] == "dict" else {}
-            L = "g[f'last_election_results_{estimand}']"
-            okb = (dd.get("nonreporting_aggregate_lower_bound") == f"numpy.sum(({L} * g.nonreporting_lower_bounds))"
-                   and dd.get("nonreporting_aggregate_upper_bound") == f"numpy.sum(({L} * g.nonreporting_upper_bounds))"
-                   and dd.get("nonreporting_weight_sum") == f"numpy.sum({L})" and dd.get("nonreporting_weight_ssum") == f"numpy.sum(numpy.power({L}, 2))")
+            dd = dict((a[1], v) for a, v in body2[2][0][1]) if body2[0] == "call" and body2[2] and body2[2][0][0] == "dict" else {}
+            Gp = ("param", "g")
+            Lt = ir.I(("sub", Gp, ("fstr", (("const", "last_election_results_"), ("param", "estimand")))))
+
+            def _sum_of(t):
+                return t[2][0] if t is not None and t[0] == "call" and t[1] == ("global", "numpy.sum") and len(t[2]) == 1 else None
+
+            def _weighted(t, colname):
+                x = _sum_of(t)
+                return x is not None and any(a_ == Lt and b_ in (("attr", Gp, colname), ("sub", Gp, ("const", colname))) for a_, b_ in ir.comm(x, "*"))
+
+            ss = _sum_of(dd.get("nonreporting_weight_ssum"))
+            ok_ss = ss is not None and (ss == ("call", ("global", "numpy.power"), (Lt, ("const", 2)), ()) or ss == ("bin", "**", Lt, ("const", 2))
+                                        or ss == ("bin", "*", Lt, Lt))
+            okb = (_weighted(dd.get("nonreporting_aggregate_lower_bound"), "nonreporting_lower_bounds")
+                   and _weighted(dd.get("nonreporting_aggregate_upper_bound"), "nonreporting_upper_bounds")
+                   and _sum_of(dd.get("nonreporting_weight_sum")) == Lt and ok_ss)
             gb = ap[1][1]
             okb = okb and gb[0] == "call" and gb[1][0] == "attr" and gb[1][2] == "groupby" and gb[2] == (AGG,)
             src = gb[1][1] if okb else None
